@@ -802,7 +802,10 @@ Definition proc_cached_gen (c : command) (seal : st c -> st c) (out : st c -> op
     rw.
 Definition proc_cached (c : command) (seal : st c -> st c) (out : st c -> option batch) : proc :=
   proc_cached_gen c seal out (fun s => s).
-(* tailcommand.go: the state IS finalIqr; ReverseRecords in place; nil finalIqr -> nil, io.EOF *)
+(* tailcommand.go: the state IS finalIqr; ReverseRecords in place; nil finalIqr -> nil, io.EOF.
+   Process(nil) and GetFinalResultIfExists give away COPIES of finalIqr (after the fix "tail keeps
+   its result and gives away copies"), so what later commands write into the IQR they get does not
+   reach the kept result: the value semantics of this model is the code *)
 Definition tail_proc_gen (n : N) (rw : option batch * bool -> option batch * bool) : proc :=
   proc_cached_gen (tail_cmd n)
     (fun fin => match fin with Some f => Some (rev f) | None => None end)
@@ -961,9 +964,10 @@ Definition streaming_flags : dpflags := {| is_bottleneck := false; is_twopass :=
 Definition bottleneck_flags : dpflags := {| is_bottleneck := true; is_twopass := false |}.
 
 (* ---------- the IQR handed out twice ---------- *)
-(* tail hands out p.finalIqr ITSELF, and commands like eval / rename / streamstats write into the
-   IQR they are given.  With a row-wise command f between tail and a two-pass command the first
-   pass leaves f(rows) in tail's finalIqr, GetFinalResultIfExists hands that out in the second
+(* sort hands out p.resultsSoFar ITSELF (so did tail with p.finalIqr before the fix "tail keeps its
+   result and gives away copies"), and commands like eval / rename / streamstats write into the
+   IQR they are given.  With a row-wise command f between sort and a two-pass command the first
+   pass leaves f(rows) in the kept IQR, GetFinalResultIfExists hands that out in the second
    pass and f is applied to it again: the two-pass command collects over f(rows) and transforms
    f(f(rows)). *)
 Definition alias_two_pass (f : row -> row) (t : twopass) (cached : batch) : batch :=
@@ -971,7 +975,8 @@ Definition alias_two_pass (f : row -> row) (t : twopass) (cached : batch) : batc
   map (tp_apply t (tp_summary t pass1)) (map f pass1).
 
 (* ---------- the result extracted twice ---------- *)
-(* statsProcessor without a BY clause (processMeasureOperations): every extraction of the result
+(* BEFORE the fix "stats without BY merges its statistics once" (kept as documentation; the code
+   is [agg_proc] now).  statsProcessor without a BY clause (processMeasureOperations): every extraction of the result
    - the first Process(nil), then GetFinalResultIfExists after a Rewind - merges the collected
    segment statistics into the search results once more (CreateSegmentStatsResults ->
    UpdateSegmentStats).  A two-pass command behind it collects over the aggregate of the input
